@@ -365,3 +365,92 @@ def install_queue_hook(world):
         return orig(self, mv)
     TcpConnection.queue = queue
     _HOOKED = True
+
+
+class ThreadedSim(Sim):
+    """The same world, but connections are handled the way --threaded mode does: one HttpProtocolHandler per connection with
+    its OWN selector, driven through its own _run_once() / is_inactive() / shutdown() exactly as HttpProtocolHandler.run() does
+    (run() itself is a blocking loop; here one iteration of it is one tick, so that peers can act between iterations).
+    shutdown() flushes pending output with the handler's blocking _flush(): while it waits in select() the client peer reads
+    (on_select hook), as a client that keeps reading would."""
+
+    def __init__(self, args=(), **kw):
+        args = [a for a in args]
+        super().__init__(args=args, **kw)
+        from proxy.common.flag import FlagParser
+        key = ('threaded', tuple(args), tuple(sorted((k, repr(v)) for k, v in (kw.get('flag_opts') or {}).items())))
+        if key not in _FLAGS:
+            _FLAGS[key] = FlagParser.initialize(list(args) + ['--threaded', '--log-level', 'CRITICAL'], **(kw.get('flag_opts') or {}))
+        self.tflags = _FLAGS[key]
+        self.handlers = []          # live (handler, client peer)
+        self.flush_reader = None    # callable invoked while _flush() waits
+
+    def accept(self, cap=None, addr=('192.0.2.7', 40000)):
+        from proxy.http.handler import HttpProtocolHandler
+        from proxy.http.connection import HttpClientConnection
+        idx = len(self.clients) + 1
+        nm = 'c' if idx == 1 else 'c%d' % idx
+        a, b = self.world.pair(nm, nm.upper(), cap=cap)
+        a.traced = True
+        a.addr = addr
+        peer = Peer(self, b, nm.upper(), addr=addr)
+        peer._proxy_side = weakref.ref(a)
+        self.clients.append(peer)
+        self.world.ev(ev='accept', s=nm, fd=a.fd)
+        h = HttpProtocolHandler(HttpClientConnection(a, addr), flags=self.tflags)
+        sel = simnet.SimSelector(self.world)
+        sel.on_select = lambda p=peer: self._during_select(p)
+        h.selector = sel
+        del a
+        try:
+            h.initialize()
+        except Exception as e:     # run() would log and shut down
+            self.world.ev(ev='init_failed', err=type(e).__name__)
+            self._end(h)
+            return peer
+        self.handlers.append((h, peer))
+        return peer
+
+    def _during_select(self, peer):
+        if self.flush_reader is not None:
+            self.flush_reader(peer)
+
+    def _end(self, h):
+        flushing = h.work.has_buffer()
+        if flushing and self.flush_reader is None:
+            # a client that keeps reading: one unit per select() of the blocking flush
+            self.flush_reader = lambda p: p.read(1 << 16)
+            try:
+                h.shutdown()
+            finally:
+                self.flush_reader = None
+        else:
+            h.shutdown()
+        try:
+            h.selector.close()
+        except Exception:
+            pass
+
+    def tick(self, n=1):
+        for _ in range(n):
+            self.world.ev(ev='tick')
+            for h, peer in list(self.handlers):
+                try:
+                    down = shared_loop().run_until_complete(h._run_once())
+                except Exception as e:     # run() logs and goes to shutdown
+                    self.world.ev(ev='handler_exc', err=type(e).__name__)
+                    down = True
+                if down:
+                    self.handlers.remove((h, peer))
+                    self._end(h)
+        return True
+
+    def reap(self):
+        for h, peer in list(self.handlers):
+            if h.is_inactive():
+                self.handlers.remove((h, peer))
+                self._end(h)
+        return True
+
+    def live_handler(self, k=0):
+        return self.handlers[k][0] if len(self.handlers) > k else None
